@@ -522,11 +522,15 @@ theorem afterCloseHandshake_facts (r : S) (hst : r.st = .closing) :
   cases hs : r.cfg.isServer with
   | true =>
     simp only [if_true]
-    unfold dropConnection
+    unfold dropConnection flushQueue
     have : r.st ≠ .closed := by rw [hst]; decide
     simp only [this, ne_eq, not_false_eq_true, if_true]
     refine ⟨rfl, rfl, rfl, rfl, rfl, ?_, rfl⟩
-    simp [S.emit, evsOf, List.filterMap_append, evOfOut]
+    have hw : ∀ q : List Bytes, List.filterMap evOfOut (q.map Out.write) = [] := by
+      intro q; induction q with
+      | nil => rfl
+      | cons b q ih => simp [List.filterMap_cons, evOfOut, ih]
+    simp [S.emit, evsOf, List.filterMap_append, evOfOut, hw]
   | false =>
     simp only [Bool.false_eq_true, if_false]
     split
